@@ -36,7 +36,8 @@ Fixpoint wline_match (tol : Q) (l : wline) (s : text) : bool :=
   match l with
   | [] => match s with [] => true | _ => false end
   | WT p :: l' => match drop_prefix p s with Some r => wline_match tol l' r | None => false end
-  | WN q :: l' => let '(a, r) := span_num s in
+  | WN q :: l' | WI q :: l' =>
+                  let '(a, r) := span_num s in
                   match parse_dec a with
                   | Some v => q_close (qmax tol META_TOL) q v && wline_match tol l' r
                   | None => false end
@@ -58,36 +59,10 @@ Definition chart_close (tol : Q) (a b : chart) : bool :=
   && list_eqb (note_close tol) (c_hits a) (c_hits b)
   && list_eqb (note_close tol) (c_holds a) (c_holds b).
 
-(* ---------------------------------------------------------------- domain of the write direction *)
-Definition clean (s : text) : bool :=                    (* survives line splitting and strip *)
-  negb (has 10 s) && negb (has 13 s) && text_eqb (strip s) s.
-Definition field_ok (s : text) : bool := clean s && negb (has 44 s) && negb (has 58 s).
-Definition note_ok (keys : Z) (n : note) : bool :=
-  (0 <=? n_col n) && (n_col n <? keys) && field_ok (n_file n).
-Definition mstr_ok (v : mval) : bool :=
-  match v with
-  | MStr s => clean s
-  | MTags l => forallb (fun w => clean w && nonempty w && negb (has 32 w)) l
-  | _ => true
-  end.
-Definition wf_chart (c : chart) : bool :=
-  let m := c_meta c in
-  let kq := meta_num m IX_CS in
-  let keys := Qfloor kq in
-  (length m =? 30)%nat && is_integral kq && (1 <=? keys) && (keys <=? 18)
-  && forallb mstr_ok m
-  && (let ss := meta_num m 4%nat in is_integral ss && Qle_bool (-1) ss && Qle_bool ss 3)
-  && is_integral (meta_num m 2%nat)
-  && clean (c_bg c)
-  && forallb (fun s => clean (sm_file s) && negb (has 44 (sm_file s))) (c_samples c)
-  && forallb (fun b => negb (Qeq_bool (b_bpm b) 0)) (c_bpms c)
-  && forallb (fun s => negb (Qeq_bool (s_mul s) 0)) (c_svs c)
-  && forallb (note_ok keys) (c_hits c) && forallb (note_ok keys) (c_holds c).
-
 Definition check (c : c01case) : verdict :=
   match c with
   | CRead tol lines out =>
-      let wf := wf_read_text lines in
+      let wf := read_domain lines in                   (* = the domain of C01_osu_read_denotes *)
       {| corr_ok := match osu_read lines, out with
                     | None, None => true
                     | Some a, Some b => chart_close tol a b
@@ -97,7 +72,7 @@ Definition check (c : c01case) : verdict :=
                                | _, _ => false end;
          wf_ok := wf |}
   | CWrite tol c ut ua out =>
-      let wf := wf_chart c in
+      let wf := write_domain c ut ua in                (* = the chart-level domain of C01_osu_write_wf / _denotes *)
       {| corr_ok := match osu_write c ut ua, out with
                     | None, None => true
                     | Some wl, Some o => lines_match tol wl o
@@ -107,7 +82,7 @@ Definition check (c : c01case) : verdict :=
                                | None => false end;
          wf_ok := wf |}
   | CGen tol w1 w2 ut ua =>
-      let wf := wf_osu_text (file_lines w1) in
+      let wf := wf_osu_text (file_lines w1) && read_domain (file_lines w1) in
       {| corr_ok := match osu_read (file_lines w1) with
                     | Some c => match osu_write c ut ua with
                                 | Some wl => lines_match tol wl w2
